@@ -60,7 +60,7 @@ def E32 : Env Float32 Float :=
     proton := f32OfBits Sage.Gen.PROTON_bits, neutron := f32OfBits Sage.Gen.NEUTRON_bits,
     cast := Float32.toFloat,
     addD := (· + ·), subD := (· - ·), mulD := (· * ·), divD := (· / ·), negD := fun x => -x,
-    ofNatD := Float.ofNat, half := 0.5, pi := 3.14159265358979323846264338327950288, tiny := 0.0,
+    ofNatD := Float.ofNat, half := 0.5, pi := 3.14159265358979323846264338327950288, tiny := Float.ofBits 1,
     ln := Float.log, exp := Float.exp, log10 := Float.log10, ln1p := ln1p32,
     isFinite := Float.isFinite, isInf := Float.isInf }
 
